@@ -29,6 +29,8 @@ pub enum SOp {
     TryRecv,
     /// condvar wait with mutex 0 (guard must be held)
     CvWait,
+    /// `while *guard(mutex 0) < n { guard = cv.wait(guard) }`: the textbook predicate loop (the predicate is the counter in mutex 0)
+    CvWaitUntil(u8),
     NotifyOne,
     NotifyAll,
     ALoad(u8),
@@ -464,6 +466,39 @@ impl<'a> Machine<'a> {
                         tick(&mut ns);
                         adv(&mut ns);
                         v.push((ns, true, None));
+                    }
+                }
+            },
+            SOp::CvWaitUntil(n) => match s.sub[t] {
+                0 => {
+                    debug_assert_eq!(s.mutex[0], t as i8);
+                    if s.counter[0] >= n as i64 {
+                        adv(&mut ns);
+                        v.push((ns, true, None));
+                    } else {
+                        ns.mutex[0] = -1;
+                        ns.held[t] &= !1;
+                        let c = ns.vc[t];
+                        vjoin(&mut ns.mvc[0], &c);
+                        ns.cvq.push(t as u8);
+                        ns.sub[t] = 1;
+                        tick(&mut ns);
+                        v.push((ns, false, None));
+                    }
+                }
+                1 => {}
+                _ => {
+                    // woken: re-acquire the mutex, then check the predicate again
+                    if s.mutex[0] < 0 {
+                        ns.mutex[0] = t as i8;
+                        ns.held[t] |= 1;
+                        let c = ns.mvc[0];
+                        vjoin(&mut ns.vc[t], &c);
+                        let w = ns.wakevc[t];
+                        vjoin(&mut ns.vc[t], &w);
+                        tick(&mut ns);
+                        ns.sub[t] = 0;
+                        v.push((ns, false, None));
                     }
                 }
             },
@@ -1036,7 +1071,7 @@ pub fn well_formed(l: &[SOp], th: usize) -> bool {
                     return false;
                 }
             }
-            SOp::CvWait => {
+            SOp::CvWait | SOp::CvWaitUntil(_) => {
                 if held[0] != 1 {
                     return false;
                 }
@@ -1215,6 +1250,13 @@ fn exec(p: &SProg, t: usize, o: &Objs, rx: Option<&loom::sync::mpsc::Receiver<u8
             SOp::CvWait => {
                 let g = guards[0].take().unwrap();
                 let g = o.cv.wait(g).unwrap();
+                guards[0] = Some(g);
+            }
+            SOp::CvWaitUntil(n) => {
+                let mut g = guards[0].take().unwrap();
+                while *g < n as i64 {
+                    g = o.cv.wait(g).unwrap();
+                }
                 guards[0] = Some(g);
             }
             SOp::NotifyOne => o.cv.notify_one(),
